@@ -27,7 +27,7 @@ use ws_stream::WebsocketStreamWrapper;
 use crate::error::{GneissError, GneissResult};
 use crate::mqtt::*;
 use crate::mqtt::disconnect::validate_disconnect_packet_outbound;
-use crate::protocol::is_connection_established;
+use crate::protocol::{add_duration_saturating, is_connection_established};
 use crate::validate::validate_packet_outbound;
 use super::*;
 
@@ -89,7 +89,7 @@ impl<T> ClientRuntimeState<T> where T : Read + Write + Send + Sync {
 
     pub(crate) fn process_connecting(&mut self, client: &mut MqttClientImpl) -> GneissResult<ClientImplState> {
         // let mut connect = (self.threaded_config.connection_factory)();
-        let timeout_timepoint = Instant::now() + *client.connect_timeout();
+        let timeout_timepoint = add_duration_saturating(Instant::now(), *client.connect_timeout());
 
         let connection_factory = self.connection_factory.clone();
         let (connection_recv, connection_send) = new_sync_result_pair::<GneissResult<T>>();
@@ -330,7 +330,7 @@ impl<T> ClientRuntimeState<T> where T : Read + Write + Send + Sync {
     }
 
     pub(crate) fn process_pending_reconnect(&mut self, client: &mut MqttClientImpl, wait: Duration) -> GneissResult<ClientImplState> {
-        let timeout_timepoint = Instant::now() + wait;
+        let timeout_timepoint = add_duration_saturating(Instant::now(), wait);
 
         loop {
             trace!("threaded - process_pending_reconnect loop");
